@@ -151,14 +151,15 @@ func TestVerifCsvDriver(t *testing.T) {
 				types, err := colDataTypes(rm, cfg.table, cfg.dstCols)
 				rm.Close()
 				if err != nil || types == nil {
+					// the program is run all the same: it has to report this itself
 					fmt.Fprintln(w, "typeserr")
-					return
+				} else {
+					ts := make([]string, len(types))
+					for i, ty := range types {
+						ts[i] = fmt.Sprint(int(ty))
+					}
+					fmt.Fprintln(w, "types", strings.Join(ts, ","))
 				}
-				ts := make([]string, len(types))
-				for i, ty := range types {
-					ts[i] = fmt.Sprint(int(ty))
-				}
-				fmt.Fprintln(w, "types", strings.Join(ts, ","))
 				srcs := make([]string, len(cfg.srcCols))
 				for i, n := range cfg.srcCols {
 					srcs[i] = fmt.Sprint(n)
